@@ -66,6 +66,7 @@ CallDiff(msgs, rest, ob) ==
       logs == CatLogs(rs)
       weird == \E j \in 1..Len(rs) : rs[j].weird
       alt == \E j \in 1..Len(rs) : rs[j].alt
+      partial == \E j \in 1..Len(rs) : rs[j].partial      \* a handler announced a block and did not finish it: its output is not specified
       ret == IF msgs = <<>> THEN TRUE ELSE rs[Len(rs)].ret IN
   IF weird THEN
      \* text that is not a well-formed unit: a command error must be queued; what exactly is skipped is not specified
@@ -73,8 +74,8 @@ CallDiff(msgs, rest, ob) ==
      \cup (IF ob.ret = 0 THEN {} ELSE {"ret"}) \cup {"weird"}
   ELSE LogDiff(logs, ob.log) \cup E113Diff(logs, ob)
        \cup (IF alt THEN (IF Len(CatErrs(rs)) = Len(ob.errs) THEN {} ELSE {"errs"}) ELSE IF ErrsMatch(CatErrs(rs), ob.errs) THEN {} ELSE {"errs"})
-       \cup (IF CatOut(rs) = ob.out THEN {} ELSE {"out"} \cup Hints(logs))
-       \cup (IF SumFlush(rs) = ob.flush THEN {} ELSE {"flush"} \cup Hints(logs))
+       \cup (IF partial \/ CatOut(rs) = ob.out THEN {} ELSE {"out"} \cup Hints(logs))
+       \cup (IF partial \/ SumFlush(rs) = ob.flush THEN {} ELSE {"flush"} \cup Hints(logs))
        \cup (IF ret = (ob.ret = 1) THEN {} ELSE {"ret"})
        \cup (IF Len(rest) = ob.pos THEN {} ELSE {"pending"})
 OvrDiff(ob) == (IF ob.ret = 0 THEN {} ELSE {"ret"}) \cup (IF ob.errs = <<0 - 363>> THEN {} ELSE {"errs"})
